@@ -468,11 +468,77 @@ def r3_service(ctx, fi: FuncInfo) -> None:
       return 'B'
     return None
 
+  r3_selection(ctx, fi, mat)
   pred = parse_pred(pred_e, role, {})
   _report(ctx, 'ListOptimalTrials dominance matrix', pred_e, fi, pred, 'dominated',
           extra_ok=negated and cand_v is not None,
           why_extra='the reduced matrix is not negated exactly once before selecting optimal trials'
           if cand_v is not None else 'reduction axis of the dominance matrix not recognised')
+
+
+def r3_selection(ctx, fi: FuncInfo, mat: str) -> None:
+  """The trials returned are exactly the considered trials whose "optimal" flag is set: the statements between the
+  flag vector and the response are interpreted on a three-trial model (flags True/False/True)."""
+  from vzstatic import pathcond
+  body = fi.node.body
+  sel_i, sel = None, None
+  for i, st in enumerate(body):
+    if isinstance(st, ast.Assign) and len(st.targets) == 1 and isinstance(st.targets[0], ast.Name):
+      for n in ast.walk(st.value):
+        red = reduction(n)
+        if red is not None and red[0] == 'any' and isinstance(red[1], ast.Name) and red[1].id == mat:
+          sel_i, sel = i, st.targets[0].id
+  loopvars = {n.target.id for n in ast.walk(fi.node) if isinstance(n, ast.For) and isinstance(n.target, ast.Name)}
+  lists = [c.func.value.id for c in flow.calls_in(fi.node) if isinstance(c.func, ast.Attribute) and c.func.attr == 'append'
+           and len(c.args) == 1 and isinstance(c.args[0], ast.Name) and c.args[0].id in loopvars and isinstance(c.func.value, ast.Name)]
+  for n in ast.walk(fi.node):  # comprehension form of the considered list
+    if isinstance(n, ast.Assign) and len(n.targets) == 1 and isinstance(n.targets[0], ast.Name) and isinstance(n.value, ast.ListComp) \
+        and isinstance(n.value.elt, ast.Name) and len(n.value.generators) == 1 and isinstance(n.value.generators[0].target, ast.Name) \
+        and n.value.elt.id == n.value.generators[0].target.id and n.value.generators[0].ifs and n in body and (sel_i is None or body.index(n) < sel_i):
+      lists.append(n.targets[0].id)
+  if sel is None or not lists:
+    return  # flags not held in a top-level local: the reduction/negation obligations above are all that is decided
+  tail = []
+  for st in body[sel_i + 1:]:
+    if isinstance(st, ast.Return) and isinstance(st.value, ast.Call):
+      kw = next((k.value for k in st.value.keywords if k.arg == 'optimal_trials'), None)
+      if kw is None and len(st.value.args) == 1:
+        kw = st.value.args[0]
+      if kw is None:
+        return
+      st = ast.copy_location(ast.Return(value=kw), st)
+    tail.append(st)
+  fn = ast.FunctionDef(name='<selection>', args=ast.arguments(posonlyargs=[], args=[], kwonlyargs=[], kw_defaults=[], defaults=[]),
+                       body=tail, decorator_list=[])
+  verdicts = []
+  for T in dict.fromkeys(lists):
+    for flags in ([True, False, True], [False, True, True], [False, False, True]):
+      env = {T: ['t0', 't1', 't2'], sel: list(flags)}
+      want = [t for t, b in zip(env[T], flags) if b]
+      try:
+        got = pathcond.run_concrete(fn, env, tolerant=True)
+        got = list(got) if got is not None else None
+      except (pathcond.NoValue, pathcond.Raised, TypeError, IndexError, KeyError):
+        got = None
+      verdicts.append((T, got, want))
+  decided = [(T, g, w) for T, g, w in verdicts if g is not None]
+  if decided:
+    goodT = [T for T in dict.fromkeys(lists) if all(g == w for t, g, w in decided if t == T) and any(t == T for t, _, _ in decided)]
+    ok = bool(goodT)
+    bad = next(((T, g, w) for T, g, w in decided if g != w), None)
+    ctx.check(ok, 'R3', 'ListOptimalTrials: the flagged trials are the ones returned', body[sel_i],
+              f'three-trial model: the response holds exactly the trials of `{goodT[0] if goodT else ""}` whose flag in `{sel}` is set',
+              f'three-trial model: with flags {bad[2] if bad else ""} expected, the response holds {bad[1] if bad else ""}: the trials returned '
+              'are not the ones the dominance test marked optimal', construct='selection', func=fi.qualname)
+    return
+  # outside the model (array indexing, ...): structural fallback - flags and trials both feed the response, no further negation
+  names = {x.id for st in tail for x in ast.walk(st) if isinstance(x, ast.Name)}
+  neg = any((isinstance(x, ast.UnaryOp) and isinstance(x.op, (ast.Not, ast.Invert))) or
+            (isinstance(x, ast.Call) and (dotted(x.func) or '').endswith('logical_not')) for st in tail for x in ast.walk(st))
+  ctx.check(sel in names and any(T in names for T in lists) and not neg, 'R3', 'ListOptimalTrials: the flagged trials are the ones returned',
+            body[sel_i], f'`{sel}` and the considered trials both feed the response, without a further negation',
+            f'the response is not selected from the considered trials by `{sel}` (or the flags are negated again)',
+            construct='selection', func=fi.qualname)
 
 
 def _is_zero(e: ast.AST) -> bool:
